@@ -96,7 +96,7 @@ CHECKS = {
         "assumptions": ["R-sem is the specification (= the uncached answer, see C01)", "fresh server per case: caches start empty"],
     },
     "C09": {
-        "runs": [_r("TestC09", 3000, 15000, race=True, qt=1500, tt=6000)],
+        "runs": [_r("TestC09", 3000, 15000, qt=1500, tt=6000)],
         "rule": "rapid draws a world, a configuration (check + list-objects iterator caches and shared iterators on, maxResults 2/5/1000, query cache drawn, "
                 "engine drawn) and a history of Check/ListObjects steps on a fresh server over a fault datastore placed below every cache layer. A faulted "
                 "step arms the datastore: at the n-th (1-6) tuple-iterator Next after arming the request's context is cancelled and, optionally, that Next "
